@@ -4,6 +4,7 @@ import (
 	"bufio"
 	"bytes"
 	"fmt"
+	"github.com/remieven/ysgo"
 	"hash/fnv"
 	"math"
 	"math/rand"
@@ -123,7 +124,20 @@ func c09Exec(srcs []string, seed string) string {
 	if fr.LoadErr != nil || fr.LoadPanic != "" || fr.Panic != "" {
 		return fmt.Sprintf("FAILED load=%v %s panic=%s", fr.LoadErr, fr.LoadPanic, fr.Panic)
 	}
-	return tracesString(fr)
+	// the same run once more on a dialogue opened from a save file of the host: a snapshot it built itself, with several
+	// variables, one entry of which holds no value (whether that is refused or not, the answer and what follows must
+	// not vary from run to run)
+	fr2 := yc.FreeWalk(srcs, yc.FreeOpts{MaxSteps: 8, Seed: seed, NewStorer: func() variable.Storer { return variable.NewInMemoryStorer() }, Suffix: storeSuffix,
+		Setup: func(r *yc.Real, log *[]string) {
+			r.Next(0)
+			err := r.DR.RestoreAt(&ysgo.Snapshot{CurrentNode: "A", VisitedNodes: map[string]int{"Loop": 1},
+				Variables: map[string]variable.Value{"a": *variable.NewNumber(1), "b": *variable.NewString("s"), "empty": {}, "c": *variable.NewBoolean(true), "i": *variable.NewNumber(0), "x0": *variable.NewNumber(5)}})
+			*log = append(*log, fmt.Sprint("restore refused: ", err != nil))
+		}})
+	if fr2.LoadErr != nil || fr2.LoadPanic != "" || fr2.Panic != "" {
+		return fmt.Sprintf("FAILED (restored run) load=%v %s panic=%s", fr2.LoadErr, fr2.LoadPanic, fr2.Panic)
+	}
+	return tracesString(fr) + "-- opened from a host-built snapshot --\n" + tracesString(fr2)
 }
 
 var c09OtherSrc = []string{"title: X\n---\n{dice(6)} {dice(6)}\n{random()}\n{random_range(1,100)}\n===\n"}
